@@ -470,31 +470,6 @@ Proof.
   apply nin_app; apply dec2_no_nl.
 Qed.
 
-Lemma ch_drop_cr_prefix : forall p s, p <> [] -> last p x00 <> c_cr -> exists s', drop_cr (p ++ s) = p ++ s'.
-Proof.
-  intros p s Hne Hlast. unfold drop_cr. destruct (rev (p ++ s)) as [|c l] eqn:E; [exists s; reflexivity|].
-  destruct (beqb c c_cr) eqn:Ec; [|exists s; reflexivity].
-  apply beqb_eq in Ec. subst c.
-  assert (Hps : p ++ s = rev l ++ [c_cr]).
-  { rewrite <- (rev_involutive (p ++ s)), E. reflexivity. }
-  destruct (exists_last (l := s)) as (s0 & x & Hs).
-  - intro Hs. subst s. rewrite app_nil_r in Hps. rewrite Hps, last_last in Hlast. apply Hlast. reflexivity.
-  - subst s. rewrite app_assoc in Hps. apply app_inj_tail in Hps. destruct Hps as [Hps _].
-    exists s0. rewrite <- Hps. reflexivity.
-Qed.
-
-(* a header line "<key> <body>\n" whose body has no newline: the key survives *)
-Lemma scan_key_line : forall p b rest,
-  p <> [] -> last p x00 <> c_cr -> ~ In c_nl (p ++ b) ->
-  exists b', scan_lines (p ++ b ++ [c_nl] ++ rest) = (p ++ b') :: scan_lines rest.
-Proof.
-  intros p b rest Hne Hlast Hnl.
-  destruct (ch_drop_cr_prefix p b Hne Hlast) as [b' Hb']. exists b'.
-  rewrite app_assoc. change ([c_nl] ++ rest) with (c_nl :: rest).
-  unfold scan_lines. rewrite (scan_lines_aux_app_nl (p ++ b) [] rest Hnl).
-  cbn [rev app]. rewrite Hb'. reflexivity.
-Qed.
-
 Lemma headers_tail_parents : forall a c rest c0 c1 ml,
   parse_headers ((str "author " ++ a) :: (str "committer " ++ c) :: [] :: rest) c0 = Some (c1, ml) ->
   c_parents c1 = c_parents c0.
@@ -506,21 +481,13 @@ Proof.
 Qed.
 
 Lemma scan_tail : forall a c msg, ~ In c_nl a -> ~ In c_nl c ->
-  exists a' c',
-    scan_lines (str "author " ++ a ++ [c_nl] ++ str "committer " ++ c ++ [c_nl] ++ [c_nl] ++ msg ++ [c_nl])
-    = (str "author " ++ a') :: (str "committer " ++ c') :: [] :: scan_lines (msg ++ [c_nl]).
+  lf_lines (str "author " ++ a ++ [c_nl] ++ str "committer " ++ c ++ [c_nl] ++ [c_nl] ++ msg ++ [c_nl])
+  = (str "author " ++ a) :: (str "committer " ++ c) :: [] :: lf_lines (msg ++ [c_nl]).
 Proof.
   intros a c msg Ha Hc.
-  destruct (scan_key_line (str "author ") a (str "committer " ++ c ++ [c_nl] ++ [c_nl] ++ msg ++ [c_nl]))
-    as [a' Ha'].
-  { discriminate. } { discriminate. }
-  { apply nin_app; [apply (contains_byte_false c_nl (str "author ")); reflexivity | exact Ha]. }
-  destruct (scan_key_line (str "committer ") c ([c_nl] ++ msg ++ [c_nl])) as [c' Hc'].
-  { discriminate. } { discriminate. }
-  { apply nin_app; [apply (contains_byte_false c_nl (str "committer ")); reflexivity | exact Hc]. }
-  exists a', c'. rewrite Ha', Hc'.
-  change ([c_nl] ++ msg ++ [c_nl]) with ([] ++ c_nl :: (msg ++ [c_nl])).
-  rewrite (scan_lines_app_nl [] (msg ++ [c_nl]) (fun H => H) (or_introl eq_refl)). reflexivity.
+  rewrite (lf_sign_line (str "author ") a _ eq_refl Ha).
+  rewrite (lf_sign_line (str "committer ") c _ eq_refl Hc).
+  rewrite lf_blank_msg. reflexivity.
 Qed.
 
 (* the reader finds exactly the parent that [commit] wrote, whatever the
@@ -533,14 +500,14 @@ Theorem commit_text_parents : forall tree tip a c msg cm,
 Proof.
   intros tree tip a c msg cm Ha Hc Htip H.
   unfold parse_commit, commit_text in H.
-  rewrite (scan_hex_line (str "tree ") tree _ eq_refl eq_refl) in H.
+  rewrite (lf_hex_line (str "tree ") tree _ eq_refl) in H.
   rewrite parse_headers_tree in H.
   destruct (read_hash (hex tree)) as [h|]; [|discriminate H].
   cbn [c_tree c_parents c_author c_committer c_msg] in H.
-  destruct (scan_tail a c msg Ha Hc) as (a' & c' & Hscan).
+  pose proof (scan_tail a c msg Ha Hc) as Hscan.
   destruct tip as [p|]; cbn [option_map parent_list] in *.
   - rewrite <- !app_assoc in H.
-    rewrite (scan_hex_line (str "parent ") p _ eq_refl eq_refl) in H.
+    rewrite (lf_hex_line (str "parent ") p _ eq_refl) in H.
     rewrite parse_headers_parent, (read_hash_hex p (Htip p eq_refl)) in H.
     cbn [c_tree c_parents c_author c_committer c_msg] in H.
     rewrite Hscan in H.
